@@ -35,4 +35,6 @@ e08cfb2 C26 PrepareIncremental on a database with tables in level 0 and compacto
 df0ab5d C27 NewManagedWriteBatch with a Set without a version next to a SetEntryAt in the same internal transaction
 66e3f39 C08 ValueThreshold 1 (or any threshold not above the number of digits of the commit timestamp), then a crash
 0bb15be C38 DB.Load of a backup cut in the middle, then any transaction
+ddb7395 C32 Subscribe with an unparsable pattern, then more than 1000 matching commits
+d79e38c C32 a subscriber while value-log GC rewrites a file or a merge operator stores its fold
 L
